@@ -229,10 +229,18 @@ func wProg() {
 			vrt.Log("ret", i, rs, es)
 		}()
 	}
-	wg.Add(1)
+	wg.Add(2)
 	go func() {
 		defer wg.Done()
 		vrt.Log("count-during", w.Count())
+	}()
+	go func() {
+		defer wg.Done()
+		// Wait racing the calls: it may return early (no worker yet) or late, but never while a
+		// worker is running. The log entry is atomic with Wait's return under the scheduler (no
+		// scheduling point lies between Wait's final unlock and the entry).
+		w.Wait()
+		vrt.Log("waitret")
 	}()
 	wg.Wait()
 	vrt.Log("joined")
@@ -300,7 +308,7 @@ func nProg(nThreads, opsPerThread int) func() {
 
 func init() {
 	vrt.Register(&vrt.Scenario{Name: "W-prog", Props: []string{"C14", "C11:race", "C12:goroutine-leak"}, Quick: 3, Thorough: 4, Heavy: true,
-		Desc: "three concurrent Workers.Call with every combination of counts from {1,2,3}, a concurrent Count, then Wait",
+		Desc: "three concurrent Workers.Call with every combination of counts from {1,2,3}, a concurrent Count and a concurrent Wait, then Wait",
 		Opts: vrt.Options{Delay: true}, Run: wProg, Check: workersCheck})
 	for _, p := range []struct {
 		name         string
